@@ -225,6 +225,7 @@ pub fn hist(case: &JsonValue) -> JsonValue {
         o["answers"] = answers;
         o["requests"] = requests_json(&log);
         o["req_marks"] = marks; // number of requests made after each look-up
+        o["cache_after"] = dump_cache(&kind, &case["years"]);
         runs.push(o).unwrap();
     }
     let mut out = JsonValue::new_object();
